@@ -663,7 +663,7 @@ def _no_match_raises(repo: Repo, view: FuncInfo, fn: Fn, co: Collections, raises
     if len(raises) > 1:
         return None, "several `raise ImpossibleMatch` statements"
     r = raises[0]
-    if any(lp in list(ancestors(r)) for lp in scan_loops):
+    if any(isinstance(a, (ast.For, ast.AsyncFor, ast.While)) for a in ancestors(r)):
         return None, "ImpossibleMatch is raised inside the scan"
     lits = flatten(fn.conds_all(r))
     if len(lits) != 1 or not lits[0][1]:
@@ -681,7 +681,13 @@ def _no_match_raises(repo: Repo, view: FuncInfo, fn: Fn, co: Collections, raises
     guard_if = _if_of(r)
     if not cfg.dominates(guard_if, ret):
         return False, "the result can be returned without the unmatched-pattern test having been made"
-    for lp in scan_loops:
+    def top(lp: ast.AST) -> ast.AST:
+        for a in ancestors(lp):
+            if isinstance(a, (ast.For, ast.AsyncFor, ast.While)):
+                lp = a
+        return lp
+
+    for lp in {id(top(x)): top(x) for x in scan_loops if x in cfg.g}.values():
         if not cfg.dominates(lp, guard_if):
             return False, "the unmatched-pattern test can be made before the scan"
     du = _full(co, u)
@@ -718,9 +724,73 @@ def _no_match_raises(repo: Repo, view: FuncInfo, fn: Fn, co: Collections, raises
             if not pol and isinstance(lit, ast.Compare) and isinstance(lit.ops[0], ast.In) and _is_identifier_of(lit.left, v):
                 got = _matched_keys(fn, co, lit.comparators[0], modules_p, arch_p)
                 return (True, "") if got is True else got
+        # form C: per pattern, "no module matched" is a flag set in an inner scan or `not any(<test> for <module>)`
+        got = _unmatched_by_flag(fn, co, u, modules_p, arch_p)
+        if got is not None:
+            return got
         extra = [f"{'' if p else 'not '}{show(l)}" for rest in rests for l, p in rest]
         return False, f"the unmatched set `{u.id}` does not start from all regex filters (only those with `{' and '.join(extra[:2])}`)"
     return None, f"the unmatched set `{u.id}` is `{du.contribs[0].text()[:100]}` - not recognised"
+
+
+def _unmatched_by_flag(fn: Fn, co: Collections, u: ast.Name, modules_p: str, arch_p: str):
+    """Unmatched set filled per pattern:  `for p in patterns: hit = False; for m in modules: if test: hit = True ...; if not hit:
+    U.add(p)`  or  `if not any(test(p, m) for m in modules): U.add(p)`.  Returns None if the shape is a different one."""
+    from .c11_coll import Binder, Contribution
+
+    raw = co.describe(u)
+    if raw.unknown or raw.removals or len(raw.contribs) != 1:
+        return None
+    c = raw.contribs[0]
+    lits = flatten(c.conds)
+    neg = [(l, p) for l, p in lits if not p and (isinstance(l, ast.Name) or (isinstance(l, ast.Call) and isinstance(l.func, ast.Name) and l.func.id == "any" and len(l.args) == 1))]
+    if len(neg) != 1 or not c.binders or not isinstance(c.binders[-1].loop, (ast.For, ast.AsyncFor)):
+        return None
+    lit = neg[0][0]
+    rest = [(l, p) for l, p in lits if l is not lit]
+    # without the flag the set must hold every pattern
+    plain = co.normalise(type(raw)([Contribution(c.elt, None, list(c.binders), rest, c.context, c.node, "add", c.how, c.acc)]))
+    if plain.unknown or len(plain.contribs) != 1:
+        return None
+    ok, more = _pattern_image(plain.contribs[0], modules_p)
+    if not ok or more:
+        return False, f"the unmatched set `{u.id}` does not start from all regex filters"
+    outer = c.binders[-1].loop
+    events: list[Contribution] = []
+    if isinstance(lit, ast.Name):
+        t = co.tree(lit)
+        if t is None:
+            return None
+        defs = fn.reaching(lit.id, t)
+        sets = [d for d in defs if d.kind == "assign" and isinstance(d.value, ast.Constant) and d.value.value is True]
+        inits = [d for d in defs if d.kind == "assign" and isinstance(d.value, ast.Constant) and not d.value.value]
+        if len(sets) + len(inits) != len(defs) or not sets or len(inits) != 1:
+            return None
+        if outer not in list(ancestors(inits[0].stmt)) or any(outer not in list(ancestors(d.stmt)) for d in sets):
+            return None, f"the flag `{lit.id}` is not reset for every pattern"
+        for d in sets:
+            inner = [l for l in co._loops_between(d.stmt, [inits[0].stmt]) if isinstance(l, (ast.For, ast.AsyncFor))]
+            local, _ctx = co.local_conds(d.stmt, inner[0] if inner else inits[0].stmt)
+            if not inner:
+                local = [x for x in fn.conds_all(d.stmt) if (id(x[0]), x[1]) not in {(id(e), p) for e, p in fn.conds_all(inits[0].stmt)}]
+            events.append(Contribution(c.elt, None, list(c.binders) + [Binder(l.target, l.iter, l) for l in inner], rest + co.xc(local), [], d.stmt, "add", "flag"))
+    else:
+        g = lit.args[0]
+        if not isinstance(g, (ast.GeneratorExp, ast.ListComp)):
+            return None
+        sub = co._describe_copy(g)
+        for x in sub.contribs:
+            events.append(Contribution(c.elt, None, list(c.binders) + x.binders, rest + x.conds + [(x.elt, True)], [], c.node, "add", "any"))
+    d2 = co.normalise(type(raw)(events))
+    if d2.unknown or not d2.contribs:
+        return None
+    for e in d2.contribs:
+        m = matched_pair(fn, e, modules_p, arch_p)
+        if not m.ok:
+            return False, f"a pattern counts as matched at `{show(e.node, 60)}`, but {m.why}"
+        if not _is_identifier_of(e.elt, m.pattern):
+            return False, f"`{show(e.node, 60)}` marks `{show(e.elt)}`, not the pattern that matched"
+    return True, ""
 
 
 def _matched_keys(fn: Fn, co: Collections, m: ast.AST, modules_p: str, arch_p: str):
